@@ -7,17 +7,32 @@ namespace ix = nmtools::index;
 using namespace nmtools::literals;
 using c06::emit_shape_result;
 
+// kind 7 (only here): nmtools_static_vector<size_t,2>, i.e. a bound not larger than the other operand's length
+constexpr int K_SVEC2 = 7;
+
 template <typename A, typename F>
 static void pair_with(vh::Out& out, const A& sa, int kb, const std::vector<long long>& b, F&&)
 {
-    bool ok = c06::with_shape<3, true, false>(kb, b, [&](const auto& sb) {
+    auto body = [&](const auto& sb) {
         const auto p = ix::broadcast_shape(sa, sb);
         out.tok("P");
         emit_shape_result(out, p);
         const auto q = ix::broadcast_shape(sb, sa);
         out.tok("Q");
         emit_shape_result(out, q);
-    });
+    };
+    if (kb == K_SVEC2) {
+        if (b.size() > 2) {
+            out.tok("ERR kind-b");
+            return;
+        }
+        nmtools_static_vector<size_t, 2> sb;
+        sb.resize(b.size());
+        for (size_t i = 0; i < b.size(); i++) sb[i] = (size_t)b[i];
+        body(sb);
+        return;
+    }
+    bool ok = c06::with_shape<3, true, false>(kb, b, body);
     if (!ok) out.tok("ERR kind-b");
 }
 
